@@ -10,6 +10,14 @@ CLAIMED = {
    technique="Coq proof (induction over the weight list) of the pickCluster model + statistical differential test of Route against the model's exact shares",
    text="Theorems C09_pick_interval / C09_proportional / C09_zero_never / C09_sole_always / C09_single_listed / C09_empty_or_zero_total_error / C09_valid_always_picks / C09_no_panic are proved in Coq for all weight vectors and all draws (no size bound). The model is tied to xdssuite/router.go by routing N calls per generated vector through the public XDSRouter.Route and comparing per-cluster frequencies with the model's exact shares.",
    note="Trusted: Coq kernel; uniformity of fastrand.Uint64n; the draw cannot be injected, so the tie is in distribution (12 sigma + 20 draws tolerance; zero share must never be drawn). Weight sums are modelled over unbounded N (code: uint64, cannot wrap below 2^32 clusters)."),
+ "C14": dict(engine="pure", design="5 C14",
+   technique="Coq proof (structural induction over strings) of the tryExpandFQDN/resolveAddr/getListenerName model + differential run through tagged wrappers",
+   text="C14_expand_idempotent, C14_qualified_unchanged, C14_expand_appends, C14_listener_name, C14_resolve, C14_case_insensitive, C14_unresolvable_never_bound, C14_too_many_colons and C14_spec_holds_of_model are proved for all strings, tables and namespace/domain configurations. The model is run against core/manager (tryExpandFQDN, resolveAddr, getListenerName on a real client with an installed name table) on bounded-exhaustive and random host spellings; the executable spec is also evaluated on the implementation's outputs.",
+   note="Trusted: Coq kernel; ASCII-only lower-casing in the model; the table is installed through updateLookupTable by a tagged hook. The history aspect (table then current) is carried by the C01 state machine."),
+ "C20": dict(engine="pure", design="5 C20",
+   technique="Coq proofs about the bootstrap model (case analysis, string-split lemmas, fold induction for first-wins) + differential run of newBootstrapConfig / xds.Init",
+   text="C20_required_env, C20_node_id, C20_metadata_default, C20_metadata_carried, C20_instance_ips_member (element membership, not substring), C20_namespace_override, C20_first_wins are proved for all environments / op sequences. The model is run against newBootstrapConfig under generated environments (incl. INSTANCE_IPS lists with textual prefixes), the node of the first real request is compared, and Init/SetXDSResourceManager sequences are run in separate processes against the repo's mock ADS server.",
+   note="Trusted: Coq kernel; protojson parsing of KITEX_XDS_METAS is glue (model starts from parsed fields, non-string values opaque); INSTANCE_IP without comma."),
 }
 
 checks = []
